@@ -307,6 +307,18 @@ def lift_answer_decoding(repo):
     return out
 
 
+def lift_ml_tail(repo):
+    """the multi-language tail of tex2txt.tex2txt: from `main_lang = ...`
+    to the end of the function (free variables: toks, opts, parms)"""
+    qual = 'yalafi.tex2txt.tex2txt'
+    q = qual + '.<ml_tail>'
+    if q not in repo.funcs and qual in repo.funcs:
+        lift_function_tail(repo, qual,
+                           lambda n: _is_assign_to(n, 'main_lang'),
+                           '<ml_tail>', ['toks', 'opts', 'parms'])
+    return repo.funcs.get(q)
+
+
 def _is_assign_to(n, text):
     return isinstance(n, ast.Assign) and ast.unparse(n.targets[0]) == text
 
